@@ -118,18 +118,51 @@ def extUnref (s : SSt) (o : Nat) : List Alt :=
 /-- private copy of the buffer behind handle `h`: refused without any change; kept when the handle is the only
     reference; or a NEW buffer with the same elements and one reference takes its place in the handle while
     the old one loses that reference — copied when others still use it, moved (and gone) when not -/
-def detach (s : SSt) (h : Nat) : List Alt :=
+def detachKeep (s : SSt) (h : Nat) (keep : Option Nat) : List Alt :=
   match s.hnd.getD h none with
   | none => [{ ok := false, st := s }]
   | some o =>
     let ob := s.objs.getD o default
     let n := s.objs.length
     let shared := refs s o > 1
-    let s1 : SSt := { objs := s.objs ++ [{ kind := .rbuf, ext := 0, elems := ob.elems }], hnd := s.hnd.set h (some n) }
+    let els := match keep with | some k => if shared then ob.elems.take k else ob.elems | none => ob.elems
+    let s1 : SSt := { objs := s.objs ++ [{ kind := .rbuf, ext := 0, elems := els }], hnd := s.hnd.set h (some n) }
     let s2 : SSt := if shared then s1
       else { s1 with objs := s1.objs.set o { ob with dead := true, elems := [] } }
     [{ ok := false, st := s }] ++ (if shared then [] else [{ ok := true, st := s }]) ++
-      [{ ok := true, st := s2, evs := if shared then [{ obj := o, copied := ob.elems }] else [] }]
+      [{ ok := true, st := s2, evs := if shared then [{ obj := o, copied := els }] else [] }]
+
+def detach (s : SSt) (h : Nat) : List Alt := detachKeep s h none
+
+/-- the handle is to name a private buffer for `len` elements: an empty handle gets a new buffer, otherwise as
+    `detach`, a shared buffer handing over copies of its first `len` elements only -/
+def reserve (s : SSt) (h len : Nat) : List Alt :=
+  match s.hnd.getD h none with
+  | none =>
+    [{ ok := false, st := s },
+     { ok := true, st := { objs := s.objs ++ [{ kind := .rbuf, ext := 0 }], hnd := s.hnd.set h (some s.objs.length) } }]
+  | some _ => detachKeep s h (some len)
+
+/-- a handle of a uniquely-owned array is to hold `newlen` elements: the only holder changes its buffer; a holder
+    of a SHARED buffer gets a buffer of its own only when there is nothing to copy — otherwise the request is
+    refused and NOTHING changes (the handle keeps naming the shared buffer); an empty handle gets a new buffer -/
+def uaGrow (s : SSt) (a : Nat) (newlen : Nat → Nat) : List Alt :=
+  match s.hnd.getD a none with
+  | none =>
+    [{ ok := false, st := s },
+     { ok := true, st := { objs := s.objs ++ [{ kind := .rbuf, ext := 0, elems := List.replicate (newlen 0) 0 }],
+                           hnd := s.hnd.set a (some s.objs.length) } }]
+  | some b =>
+    let ob := s.objs.getD b default
+    if refs s b > 1 then
+      { ok := false, st := s } ::
+        (if ob.elems.isEmpty then
+          [{ ok := true, st := { objs := s.objs ++ [{ kind := .rbuf, ext := 0, elems := List.replicate (newlen 0) 0 }],
+                                 hnd := s.hnd.set a (some s.objs.length) } }]
+         else [])
+    else
+      [{ ok := false, st := s },
+       { ok := true, st := { s with objs := s.objs.set b { ob with elems := List.replicate (newlen ob.elems.length) 0 } } }]
 
 /-! ### handles owned by objects (C++ `reference<T>` members): slot `nroot + o` belongs to object `o` -/
 
